@@ -7,6 +7,17 @@
 // code (their Match blocks on a channel the driver controls); inside a real
 // route the dispatcher is held at the Tracef call that precedes `dest.In <-
 // buf` by a logrus hook installed by the driver.
+//
+// Kind "fe" (the whole table): a dispatcher is additionally held INSIDE the
+// front end of Table.Dispatch, after it loaded the configuration and before
+// its route loop: the first aggregator of the table is built by the driver
+// with aggregator.NewMocked (drop-raw, regex cache on, a regex that matches
+// nothing); its AddMaybe asks the mock clock for the time from the Dispatch
+// goroutine, and the mock clock is the gate.  While it is held there the
+// schedule changes the blacklist / rewriters / aggregators AND the routes;
+// the fate of the metric (dropped by the blacklist, consumed by a drop-raw
+// aggregator, handed to the routes) is read off the table's own Tracef lines
+// and cross-checked against the table's blacklist counter.
 package tbl
 
 import (
@@ -45,6 +56,7 @@ type step struct {
 	Ev string `json:"ev"`
 	D  int    `json:"d"`
 	C  int    `json:"c"`
+	L  string `json:"l"` // list operated on (kind fe: main | bl | rw | agg; other kinds: the list of the kind)
 	Op string `json:"op"`
 	E  int    `json:"e"`
 	F  int    `json:"f"`
@@ -54,8 +66,12 @@ type step struct {
 
 type scenario struct {
 	H     int    `json:"h"`
-	Kind  string `json:"kind"` // route (capture routes) | rroute (real routes) | dest | rw | bl | agg
+	Kind  string `json:"kind"` // route (capture routes) | rroute (real routes) | dest | rw | bl | agg | fe (whole table)
 	Init  int    `json:"init"`
+	FeBl  int    `json:"febl"`  // kind fe: inert blacklist / rewriter / aggregator entries of the initial table
+	FeRw  int    `json:"ferw"`  // (ids 101.., 201.., 301..; the gate aggregator, id 99, comes first)
+	FeAgg int    `json:"feagg"`
+	RGate bool   `json:"rgate"` // kind fe: the capture routes are gates too
 	Steps []step `json:"steps"`
 }
 
@@ -76,6 +92,7 @@ type dispState struct {
 	held    bool
 	done    bool
 	dead    int
+	fate    string // "bl" | "agg" (the table's own trace lines); "" = handed to the route loop
 }
 
 type harness struct {
@@ -97,6 +114,32 @@ type harness struct {
 	stopDr chan struct{}
 	aggID  map[*aggregator.Aggregator]int
 	held   map[string][]heldSnap // per list: every slice seen published so far in this history
+
+	rgate   bool       // kind fe: capture routes hold the dispatcher
+	feArmed *dispState // kind fe: the dispatcher that is to be held at the front-end gate
+	blBase  int64      // the table's blacklist counter when the history started (process-global counter)
+	blSeen  int64      // dispatches the hook saw dropped by the blacklist
+}
+
+const gateAggID = 99
+
+var blCounter = func() interface{ Count() int64 } { return stats.Counter("unit=Metric.direction=blacklist") }
+
+// feGate is the mock clock of the gate aggregator.  AddMaybe calls it from the
+// Dispatch goroutine (matchWithCache, under the aggregator's cache lock), i.e.
+// after Dispatch loaded the configuration and ran blacklist and rewriters,
+// before the remaining aggregators and the route loop.  Only an armed
+// dispatcher is held; the aggregator's own goroutine (shutdown) passes.
+func (h *harness) feGate() time.Time {
+	h.mu.Lock()
+	s := h.feArmed
+	h.feArmed = nil
+	h.mu.Unlock()
+	if s != nil {
+		s.reached <- -1
+		<-s.release
+	}
+	return time.Unix(1000, 0)
 }
 
 // heldSnap is one published slice as a dispatcher that loaded it holds it: the
@@ -152,7 +195,7 @@ func (h *harness) ds(d int) *dispState {
 // gate: called in the dispatcher goroutine when it arrives at entry id
 func (h *harness) gate(d, id int) {
 	s := h.ds(d)
-	if s == nil || !s.gated {
+	if s == nil || !s.gated || (h.kind == "fe" && !h.rgate) {
 		return
 	}
 	s.reached <- id
@@ -213,6 +256,31 @@ type lrHook struct{}
 func (lrHook) Levels() []log.Level { return []log.Level{log.TraceLevel} }
 func (lrHook) Fire(e *log.Entry) error {
 	msg := e.Message
+	if strings.HasPrefix(msg, "table dropped ") {
+		// "table dropped <buf>, matched blacklist entry <m>" / "..., matched dropRaw aggregator <re>"
+		fate := ""
+		i := strings.Index(msg, ", matched blacklist entry ")
+		if i >= 0 {
+			fate = "bl"
+		} else if i = strings.Index(msg, ", matched dropRaw aggregator "); i >= 0 {
+			fate = "agg"
+		}
+		h, _ := cur.Load().(*harness)
+		if fate == "" || h == nil {
+			return nil
+		}
+		if _, d, _, ok := parseName([]byte(msg[len("table dropped "):i])); ok {
+			if s := h.ds(d); s != nil {
+				s.mu.Lock()
+				s.fate = fate
+				s.mu.Unlock()
+				if fate == "bl" {
+					atomic.AddInt64(&h.blSeen, 1)
+				}
+			}
+		}
+		return nil
+	}
 	if !strings.HasPrefix(msg, "route ") {
 		return nil
 	}
@@ -265,6 +333,7 @@ func installHook() {
 		l.SetOutput(ioutil.Discard)
 		l.AddHook(lrHook{})
 		l.SetLevel(log.TraceLevel)
+		aggregator.InitMetrics() // as the relay's main does: aggregators that take a metric sample its timestamp
 	})
 }
 
@@ -283,6 +352,7 @@ func newHarness(t *testing.T, lg *hx.Log, kind string, rng *rand.Rand) *harness 
 		t.Fatal(err)
 	}
 	h.tbl = table.New(cfg)
+	h.blBase = blCounter().Count()
 	cur.Store(h)
 	if kind == "dest" {
 		h.rkey = "R" + h.tag
@@ -362,6 +432,35 @@ func aggIDOf(a *aggregator.Aggregator) int {
 	return idFromPrefix(strings.TrimSuffix(a.OutFmt, ".out"), "agg")
 }
 
+// an aggregator that hits class f has the regex ^c<f>[.] (the inert ones: ^agg<id>[.]never)
+func aggFOf(a *aggregator.Aggregator) int {
+	re := a.Matcher.Regex
+	if strings.HasPrefix(re, "^c") && strings.HasSuffix(re, "[.]") {
+		if n, err := strconv.Atoi(re[2 : len(re)-3]); err == nil {
+			return n
+		}
+	}
+	return 0
+}
+
+// a blacklist entry is inert (prefix bl<id>.) or hits class f (regex ^(c<f>|bl<id>)[.])
+func blIDF(m *matcher.Matcher) (id, f int) {
+	if m.Prefix != "" {
+		return idFromPrefix(m.Prefix, "bl"), 0
+	}
+	re := m.Regex
+	if strings.HasPrefix(re, "^(c") && strings.HasSuffix(re, ")[.]") {
+		p := strings.Split(re[2:len(re)-4], "|")
+		if len(p) == 2 {
+			f, err := strconv.Atoi(p[0][1:])
+			if err == nil {
+				return idFromPrefix(p[1]+".", "bl"), f
+			}
+		}
+	}
+	return -1, 0
+}
+
 // list name in the trace spec
 func (h *harness) listOf() string {
 	switch h.kind {
@@ -395,7 +494,7 @@ func (h *harness) raw(list string) heldSnap {
 			for i := range bl {
 				o[i] = -1
 				if bl[i] != nil {
-					o[i] = idFromPrefix(bl[i].Prefix, "bl")
+					o[i], _ = blIDF(bl[i])
 				}
 			}
 			return o
@@ -475,12 +574,13 @@ func (h *harness) view(list string) [][2]int {
 		return out
 	case "bl":
 		for _, b := range s.Blacklist {
-			out = append(out, [2]int{idFromPrefix(b.Prefix, "bl"), 0})
+			id, f := blIDF(b)
+			out = append(out, [2]int{id, f})
 		}
 		return out
 	case "agg":
 		for _, a := range s.Aggregators {
-			out = append(out, [2]int{aggIDOf(a), 0})
+			out = append(out, [2]int{aggIDOf(a), aggFOf(a)})
 		}
 		return out
 	}
@@ -593,7 +693,18 @@ func (h *harness) doOp(list string, o step) {
 	case "bl":
 		switch o.Op {
 		case "add":
-			if h.useCmd() {
+			if o.F != 0 { // an entry that drops every class-F metric
+				re := fmt.Sprintf("^(c%d|bl%d)[.]", o.F, o.E)
+				if h.useCmd() {
+					cmd("addBlack regex " + re)
+				} else {
+					var m matcher.Matcher
+					m, err = matcher.New("", "", "", "", re, "")
+					if err == nil {
+						h.tbl.AddBlacklist(&m)
+					}
+				}
+			} else if h.useCmd() {
 				cmd(fmt.Sprintf("addBlack prefix bl%d.", o.E))
 			} else {
 				var m matcher.Matcher
@@ -608,7 +719,33 @@ func (h *harness) doOp(list string, o step) {
 	case "agg":
 		switch o.Op {
 		case "add":
-			if h.useCmd() {
+			if o.E == gateAggID {
+				// the front-end gate: matches nothing, drop-raw + regex cache => AddMaybe consults the mock clock
+				var m matcher.Matcher
+				m, err = matcher.New("", "", "", "", fmt.Sprintf("agg%d[.]never$", o.E), "") // no literal prefix: PreMatch passes every metric
+				if err == nil {
+					var a *aggregator.Aggregator
+					a, err = aggregator.NewMocked("sum", m, fmt.Sprintf("agg%d.out", o.E), true, 3600, 7200, true, h.tbl.In, 10,
+						h.feGate, make(chan time.Time))
+					if err == nil {
+						h.tbl.AddAggregator(a)
+					}
+				}
+			} else if o.F != 0 { // a drop-raw aggregator that consumes every class-F metric
+				if h.useCmd() {
+					cmd(fmt.Sprintf("addAgg sum ^c%d[.] agg%d.out 3600 7200 dropRaw=true", o.F, o.E))
+				} else {
+					var m matcher.Matcher
+					m, err = matcher.New("", "", "", "", fmt.Sprintf("^c%d[.]", o.F), "")
+					if err == nil {
+						var a *aggregator.Aggregator
+						a, err = aggregator.New("sum", m, fmt.Sprintf("agg%d.out", o.E), true, 3600, 7200, true, h.tbl.In)
+						if err == nil {
+							h.tbl.AddAggregator(a)
+						}
+					}
+				}
+			} else if h.useCmd() {
 				cmd(fmt.Sprintf("addAgg sum ^agg%d[.]never agg%d.out 3600 7200", o.E, o.E))
 			} else {
 				var m matcher.Matcher
@@ -626,7 +763,7 @@ func (h *harness) doOp(list string, o step) {
 		}
 	default:
 		switch h.kind {
-		case "route":
+		case "route", "fe":
 			switch o.Op {
 			case "add":
 				h.tbl.AddRoute(&capRoute{h: h, id: o.E, f: o.F, key: h.routeKey(o.E)})
@@ -720,6 +857,9 @@ func (h *harness) start(d, c int, gated bool) *dispState {
 	s := &dispState{gated: gated, reached: make(chan int), release: make(chan struct{}), fin: make(chan struct{})}
 	h.mu.Lock()
 	h.disp[d] = s
+	if h.kind == "fe" && gated {
+		h.feArmed = s
+	}
 	h.mu.Unlock()
 	h.lg.Emit(map[string]interface{}{"ev": "start", "d": d, "c": c})
 	line := lineFor(c, d, h.tag)
@@ -741,6 +881,11 @@ func (h *harness) settle(d int) {
 		s.held = true
 	case <-s.fin:
 		s.done = true
+		h.mu.Lock()
+		if h.feArmed == s { // it never came to the front-end gate (dropped by the blacklist)
+			h.feArmed = nil
+		}
+		h.mu.Unlock()
 		h.end(d)
 	}
 }
@@ -760,9 +905,12 @@ func (h *harness) end(d int) {
 	s.mu.Lock()
 	vis := append([]int{}, s.vis...)
 	rw := append([]int{}, s.rw...)
-	rwobs, dead := s.rwobs, s.dead
+	rwobs, dead, fate := s.rwobs, s.dead, s.fate
 	s.mu.Unlock()
-	h.lg.Emit(map[string]interface{}{"ev": "end", "d": d, "vis": vis, "rw": rw, "rwobs": rwobs, "dead": dead})
+	if fate == "" {
+		fate = "routed"
+	}
+	h.lg.Emit(map[string]interface{}{"ev": "end", "d": d, "vis": vis, "rw": rw, "rwobs": rwobs, "dead": dead, "fate": fate})
 	h.mu.Lock()
 	delete(h.disp, d)
 	h.mu.Unlock()
@@ -802,6 +950,10 @@ func (h *harness) close() {
 			}
 		}
 	}
+	// the fate read off the trace lines against the table's own blacklist counter (no dispatch is running any more)
+	if got, want := blCounter().Count()-h.blBase, atomic.LoadInt64(&h.blSeen); got != want {
+		h.lg.Emit(map[string]interface{}{"ev": "obs_mismatch", "id": -1, "hook": want, "counter": got})
+	}
 	h.tbl.Shutdown()
 	_, _, _, aggs := h.tbl.VerifRawConfig()
 	for _, a := range aggs {
@@ -818,12 +970,30 @@ func runScenario(t *testing.T, lg *hx.Log, sc scenario, rng *rand.Rand) {
 	h := newHarness(t, lg, sc.Kind, rng)
 	lg.Emit(map[string]interface{}{"ev": "hist", "h": sc.H, "kind": sc.Kind})
 	list := h.listOf()
+	if sc.Kind == "fe" {
+		// the whole table: the front end first (the gate aggregator leads the aggregator list), then the routes
+		h.rgate = sc.RGate
+		h.doOp("agg", step{Ev: "op", L: "agg", Op: "add", E: gateAggID})
+		for i := 1; i <= sc.FeAgg; i++ {
+			h.doOp("agg", step{Ev: "op", L: "agg", Op: "add", E: 300 + i})
+		}
+		for i := 1; i <= sc.FeBl; i++ {
+			h.doOp("bl", step{Ev: "op", L: "bl", Op: "add", E: 100 + i})
+		}
+		for i := 1; i <= sc.FeRw; i++ {
+			h.doOp("rw", step{Ev: "op", L: "rw", Op: "add", E: 200 + i})
+		}
+	}
 	for i := 1; i <= sc.Init; i++ {
 		h.doOp(list, step{Ev: "op", Op: "add", E: i})
 	}
 	for _, st := range sc.Steps {
 		switch st.Ev {
 		case "op":
+			if sc.Kind == "fe" && st.L != "" {
+				h.doOp(st.L, st)
+				break
+			}
 			h.doOp(list, st)
 		case "start":
 			h.start(st.D, st.C, true)
